@@ -113,17 +113,19 @@ class Imputer(_SeriesToSeriesTransformer):
                 forecaster = PolynomialTrendForecaster(degree=1)
             # in-sample forecasting horizon
             fh_ins = -np.arange(len(Z))
-            # fill NaN before fitting with ffill and backfill (heuristic)
-            Z = Z.fillna(method="ffill").fillna(method="backfill")
+            # fill NaN before fitting with ffill and backfill (heuristic), the
+            # missing values themselves are then replaced by the in-sample forecasts
+            Z_filled = Z.fillna(method="ffill").fillna(method="backfill")
             # multivariate
             if isinstance(Z, pd.DataFrame):
+                Z = Z.copy()
                 for col in Z:
-                    forecaster.fit(y=Z[col])
+                    forecaster.fit(y=Z_filled[col])
                     Z_pred = forecaster.predict(fh=fh_ins)
                     Z[col] = Z[col].fillna(value=Z_pred)
             # univariate
             else:
-                forecaster.fit(y=Z)
+                forecaster.fit(y=Z_filled)
                 Z_pred = forecaster.predict(fh=fh_ins)
                 Z = Z.fillna(value=Z_pred)
         elif self.method == "mean":
